@@ -12,6 +12,10 @@ EvK = z3.Datatype('EvK')
 EvK.declare('evk', ('ea', Node), ('eb', Node), ('eop', Op))
 EvK = EvK.create()
 evk, ea, eb, eop = EvK.evk, EvK.ea, EvK.eb, EvK.eop
+EvRow = z3.Datatype('EvRow')
+EvRow.declare('evrow', ('rk', EvK), ('rt', Int))
+EvRow = EvRow.create()
+evrow = EvRow.evrow
 
 _counter = itertools.count()
 
